@@ -145,6 +145,9 @@ def canon_impl(o) -> str:
         return "<< " + "".join("n:%s %s " % (C.hx(k), canon_impl(v)) for k, v in items) + ">>"
     if isinstance(o, PDFObjRef):
         return "R:%d" % o.objid
+    from pdfminer.pdftypes import PDFStream
+    if isinstance(o, PDFStream):
+        return "S:" + canon_impl(o.attrs) + " " + C.hx(o.rawdata or b"")
     return "?:" + type(o).__name__
 
 
@@ -492,13 +495,19 @@ def read_stream(data: bytes, bufsiz: int) -> str:
     return " | ".join(out) if out else "<nothing>"
 
 
+def getobj_pdf(spelling: bytes, eol: bytes, pad: bytes) -> Tuple[bytes, int]:
+    """(file, offset of object 5 as recorded in its cross-reference table)"""
+    objs = {1: {"Type": "Catalog", "Pages": W.Ref(2)}, 2: {"Type": "Pages", "Kids": [], "Count": 0},
+            5: W.Raw(pad + spelling)}
+    pdf = W.build_pdf(objs, 1, eol=eol)
+    return pdf, pdf.index(b"5 0 obj")
+
+
 def read_getobj(spelling: bytes, bufsiz: int, eol: bytes, pad: bytes) -> str:
     from pdfminer.pdfdocument import PDFDocument
     from pdfminer.pdfparser import PDFParser
     from pdfminer.psparser import PSBaseParser
-    objs = {1: {"Type": "Catalog", "Pages": W.Ref(2)}, 2: {"Type": "Pages", "Kids": [], "Count": 0},
-            5: W.Raw(pad + spelling)}
-    pdf = W.build_pdf(objs, 1, eol=eol)
+    pdf, _ = getobj_pdf(spelling, eol, pad)
     old = PSBaseParser.BUFSIZ
     PSBaseParser.BUFSIZ = bufsiz
     try:
@@ -553,7 +562,7 @@ def from_json(j) -> Tuple[bytes, str, str, int, bytes, bytes, bytes]:
 def make_case(rng, value, feats: Sequence[str], reader: Optional[str] = None) -> Case:
     sp = Speller(rng, feats)
     s = sp.spell(value)
-    reader = reader or ("getobj" if (value[0] == "ref" or rng.random() < 0.12) else "stream")
+    reader = reader or ("getobj" if rng.random() < (0.5 if value[0] == "ref" else 0.12) else "stream")
     pad = make_pad(rng, rng.choice([0, 0, 1, 2, 3, 7, 8, 9, rng.randint(0, 70)]))
     if reader == "stream" and ends_regular(s) and sp.on("eof_end", 0.15):
         trail = b""
@@ -574,8 +583,6 @@ def shrink_failure(ctx: C.Ctx, case: Case, got: str) -> Tuple[Case, str, List[st
         for t in range(tries):
             r = random.Random("shrink/%d/%s" % (t, canon(value)))
             c2 = make_case(r, value, feats, reader)
-            if reader == "stream" and has_ref(value) and value[0] == "ref":
-                continue
             g = c2.run()
             if g != canon(value):
                 return c2, g
@@ -586,8 +593,6 @@ def shrink_failure(ctx: C.Ctx, case: Case, got: str) -> Tuple[Case, str, List[st
     while changed:
         changed = False
         for sub in sorted(subtrees(best.value), key=size):
-            if sub[0] == "ref" and best.reader == "stream":
-                continue
             r = fails(sub, feats, best.reader)
             if r is not None:
                 best, best_got = r
@@ -653,6 +658,9 @@ def check_case(ctx: C.Ctx, batch: Batch, case: Case, origin: str, seen_fail: Set
     batch.add("spec.spell " + C.hx(case.spelling), "spec.spell", case.to_json(), exp)
     if case.reader == "stream":
         batch.add("model.obj %d %s" % (case.bufsiz, C.hx(case.data())), "model.obj", case.to_json(), got)
+    else:
+        pdf, off = getobj_pdf(case.spelling + case.trail, case.eol, case.pad)
+        batch.add("model.getobj %d 5 %s" % (case.bufsiz, C.hx(pdf[off:])), "model.getobj", case.to_json(), got)
 
 
 # ------------------------------------------------------------------ run
@@ -725,9 +733,41 @@ def _run(ctx: C.Ctx) -> None:
         check_case(ctx, batch, make_case(rng, value, feats), "random", seen)
         if i % 4 == 0:
             check_mutant(ctx, batch, make_case(rng, value, feats, "stream"), rng)
+        if i % 10 == 0:
+            check_stream_object(ctx, batch, rng)
         if len(batch.req) > 100000:
             batch.flush()
     batch.flush()
+
+
+def check_stream_object(ctx: C.Ctx, batch: Batch, rng) -> None:
+    """The stream hand-off of PDFParser.do_keyword (tie only): `<< /Length n ... >> stream EOL data EOL endstream`."""
+    n = rng.choice([0, 1, 2, 5, 17, 40])
+    data = bytes(rng.choice(b"ab \r\n\x00endstream()<>/%") for _ in range(n))
+    if rng.random() < 0.15:
+        data += b"endstream"[: rng.randint(1, 9)] + b"x"
+    length = rng.choice([n, n, n, n, max(0, n - rng.randint(1, 3)), n + rng.randint(1, 12), None])
+    sp = Speller(rng, rng.sample(ALL_FEATURES, rng.randint(0, 5)))
+    items = []
+    if length is not None:
+        items.append((b"Length", ("int", length)))
+    for _ in range(rng.randint(0, 2)):
+        k = gen_key(rng)
+        if k and k != b"Length" and all(k != kk for kk, _ in items):
+            items.append((k, gen_scalar(rng)))
+    rng.shuffle(items)
+    head = sp.spell(("dict", items))
+    eol1 = rng.choice([b"\n", b"\r\n", b"\r", b" \n"])
+    eol2 = rng.choice([b"\n", b"\r\n", b"", b"\r"])
+    body = head + sp.gap(False) + b"stream" + eol1 + data + eol2 + b"endstream" + rng.choice([b"\n", b" ", b"\r\n"])
+    bufsiz = rng.choice(SIZES)
+    eol = rng.choice([b"\n", b"\r\n"])
+    got = read_getobj(body, bufsiz, eol, b"")
+    pdf, off = getobj_pdf(body, eol, b"")
+    ctx.case((body, "stream-object", bufsiz), True, branch="reader:getobj-streamobj",
+             sample={"object": repr(body), "bufsiz": bufsiz})
+    batch.add("model.getobj %d 5 %s" % (bufsiz, C.hx(pdf[off:])), "model.getobj",
+              {"object": body.hex(), "ascii": repr(body), "bufsiz": bufsiz, "eol": eol.hex()}, got)
 
 
 def check_mutant(ctx: C.Ctx, batch: Batch, case: Case, rng) -> None:
@@ -749,3 +789,9 @@ def check_mutant(ctx: C.Ctx, batch: Batch, case: Case, rng) -> None:
         return
     batch.add("model.obj %d %s" % (case.bufsiz, C.hx(data)), "model.obj",
               {"data": data.hex(), "bufsiz": case.bufsiz, "mutant": True}, got)
+    if rng.random() < 0.5 and b"stream" not in data and b"obj" not in data:
+        got2 = read_getobj(data, case.bufsiz, case.eol, b"")
+        pdf, off = getobj_pdf(data, case.eol, b"")
+        ctx.case((data, "mutant-getobj", case.bufsiz), True, branch="reader:mutant-getobj")
+        batch.add("model.getobj %d 5 %s" % (case.bufsiz, C.hx(pdf[off:])), "model.getobj",
+                  {"data": data.hex(), "bufsiz": case.bufsiz, "mutant": True, "eol": case.eol.hex()}, got2)
